@@ -105,6 +105,11 @@ def shape_of(flat, use, landing):
     x, _, s = occs[use][:3]
     kind = lambda i: scopes_[i][0]
     par = lambda i: scopes_[i][1]
+    if occs[use][1] == G.ROLES['dflt'] and kind(par(s)) == G.KINDS['class']:
+        # the default value of a parameter of a lambda that sits directly in a class body: Python
+        # evaluates it in the class body (LOAD_NAME: class namespace, else globals); jedi looks it
+        # up from the lambda's own context, whose parent context skips the class
+        return 'lambda-default-in-class-body'
     ls = occs[landing][2] if landing is not None and landing >= 0 else None
     K = G.KINDS
     # ancestors of the use scope
@@ -205,7 +210,7 @@ def analyse(prog):
         toks = set(toks)
         if any(t < 0 for t in toks):     # unbound at run time / foreign value: no claim
             continue
-        if occs[u]['role'] != 'use':
+        if occs[u]['role'] not in ('use', 'dflt'):
             continue
         owners = {binding_owner(tables, parents, flat['occs'][t][2], occs[t]['name']) for t in toks}
         out['judged'].append(u)
@@ -292,7 +297,7 @@ def compare(ctx, cases, answers):
                                short({'source': c['src'], 'occ': occs[u], 'jedi': impl, 'model': model}, 1500))
         failed_uses = {(f[1]['line'], f[1]['column']) for f in c['fails']}
         for u in c['judged']:
-            cov = a['covered'][u]
+            cov = a['covered'][u] and occs[u]['role'] == 'use'   # the theorem speaks about plain uses
             ctx.count('covered', (c['src'], u), nontrivial=bool(cov), bucket='covered' if cov else 'outside-hypothesis')
             if cov and (occs[u]['line'], occs[u]['col']) in failed_uses and \
                     not any(f[1]['shape'] == 'straight-line' for f in c['fails']):
@@ -333,7 +338,7 @@ def programs(ctx):
         ctx.obligations['exhaustive'] = True
         n_random = 8000
     for _ in range(n_random):
-        out.append((G.gen_program(rng, allow=('lambda', 'comp', 'assign', 'dflt')), 'random'))
+        out.append((G.gen_program(rng, allow=('lambda', 'comp', 'assign', 'dflt', 'ldflt')), 'random'))
     out += [(p, 'witness') for p in WITNESSES]
     return out
 
@@ -430,6 +435,9 @@ WITNESSES = [
     [B('a'), D('class', 'K', [B('a'), D('function', 'f', [U('a')]), {'k': 'call', 'x': 'f', 'n': 0}])],
     # class-body use before class-level binding, enclosing function binds the name
     [B('a'), D('function', 'f', [B('a'), D('class', 'K', [U('a'), B('a')])]), {'k': 'call', 'x': 'f', 'n': 0}],
+    # default value of a lambda parameter in a class body reads the class attribute
+    [B('a'), D('class', 'K', [B('a'), {'k': 'lamdef', 'name': 'g', 'params': ['b'], 'x': 'b', 'dflt': 'a'},
+                              {'k': 'call', 'x': 'g', 'n': 1}])],
     # global declaration, enclosing function binds the name
     [B('a'), D('function', 'f', [B('a'), D('function', 'g', [{'k': 'global', 'x': 'a'}, U('a')]),
                                  {'k': 'call', 'x': 'g', 'n': 0}]), {'k': 'call', 'x': 'f', 'n': 0}],
